@@ -4,7 +4,7 @@ _ASSUME = ['sim runtime: virtual clock, threads created by fix8 are registered b
            'the counterparty is scripted and always in sequence; inbound bytes enter through Session::process as the reader thread would hand them over',
            'canonical state = session state, both sequence numbers, batch buffer size, stored key set, control record, reference counter; '
            'store contents are judged against the wire at every step, so keys need only the key set']
-_RULE = ('history = sequence of events from {send, heartbeat, in-app, batch2, in-testrequest, testrequest, in-resendrequest(1,0), batch3, restart} replayed on a fresh real '
+_RULE = ('history = sequence of events from {send, heartbeat, in-app, batch2, in-testrequest, testrequest, in-resendrequest(1,0), batch3, restart, in-resendrequest two numbers ahead of sequence, in-resendrequest as PossDup one below the expected number} replayed on a fresh real '
          'Session per configuration (acceptor/initiator x memory/file/no persister, pre-seeded control record, configured start number, reset flag); '
          'distinct = new canonical state; every history of length <= depth whose prefix reached a new state is executed')
 
@@ -34,7 +34,7 @@ check('C16', title='Outbound sequence numbers are consecutive and persisted',
            'wire output is compared with a reference counter (each new message carries previous+1, first = configured/recovered start, no number reused across restarts) and '
            'the persisted control record must equal the session\'s next send / next expected receive numbers. ' + _SR,
       level_note='Bounded by history depth and the event menu; a Logout sent with the no-increment flag (session terminating) is outside the menu. Schedule search: 2 sender steps + 2 inbound steps at preemption bound 3 (quick).',
-      rule=_RULE + '; send-vs-receive: execution = one complete schedule', assumptions=_ASSUME + _SRA, parts=_parts('C16', 5, 7))
+      rule=_RULE + '; send-vs-receive: execution = one complete schedule', assumptions=_ASSUME + _SRA, parts=_parts('C16', 4, 6))
 
 check('C17', title='Sent application messages are stored exactly as transmitted',
       level='model_checking', engine='sim+bfs',
@@ -43,4 +43,4 @@ check('C17', title='Sent application messages are stored exactly as transmitted'
       text='Same search as C16; after every event, for every sequence number up to the latest + 3, the persister returns exactly the bytes of the application message '
            'that went on the wire under that number (batches are split by BodyLength), and returns nothing for numbers used by administrative messages or not used at all. ' + _SR,
       level_note='As C16; schedule search over the file store with its system calls as scheduling points, preemption bound 2 (quick).', rule=_RULE + '; send-vs-receive: execution = one complete schedule',
-      assumptions=_ASSUME + _SRA, parts=_parts('C17', 5, 7))
+      assumptions=_ASSUME + _SRA, parts=_parts('C17', 4, 6))
